@@ -54,8 +54,8 @@ PROPS['C06'] = dict(
 
 PROPS['C17'] = dict(
     sess=[('sess_c17', 250, 3000)],
-    events='w', state=['cap', 'used', 'ret', 'rel', 'cp', 'pq', 'conn', 'gen'],
-    monitors=[M.mon_c17],
+    events='w', state=['cap', 'used', 'ret', 'rel', 'cp', 'pq', 'conn', 'gen', 'live', 'quota'],
+    monitors=[M.mon_c17, M.mon_c17_admission],
     title='transmit arena: retained packets stay intact and capacity is fully recovered',
     claim='Proved in Coq: a refinement of the concrete byte arena (offsets, copy_within compaction with memmove semantics, '
           'in-place encoding behind `used`, DUP poke) to the abstract list of (id, bytes, state): compaction, acknowledgement '
@@ -370,10 +370,10 @@ PROPS['C15'] = dict(
          'Trusted: Coq kernel, model, extraction, harness, reader hook. No axioms.')
 
 PROPS['C13'] = dict(
-    sess=[('sweep_c13', 150, 3000)],
+    sess=[('sweep_c13', 150, 3000), ('py_c01', 200, 2000)],
     twins=[('py_c13', 1200, 12000)],
     events='wrf', state=['ret', 'ctl', 'rel', 'srv', 'quota', 'h', 'conn', 'live', 'rb', 'pl', 'pid', 'gen', 'cp'],
-    monitors=[M.mon_c13, M.mon_panic],
+    monitors=[M.mon_c13, M.mon_c13_wire, M.mon_panic],
     twin_monitors=[M.twin_c13],
     title='cancelling a cancel-safe operation loses, duplicates and corrupts nothing',
     claim='Proved in Coq: the unconsumed broker stream (reader buffer followed by the transport queue) is the same byte sequence '
@@ -394,7 +394,7 @@ PROPS['C13'] = dict(
 PROPS['C16'] = dict(
     sess=[('drain_c16', 300, 5000), ('drain_base', 200, 4000), ('drain_c06', 150, 3000), ('drain_c03', 100, 2000)],
     events='wrf', state=['ret', 'ctl', 'rel', 'srv', 'quota', 'h', 'conn', 'live', 'pq', 'cp', 'gen'],
-    monitors=[M.mon_c16, M.mon_panic],
+    monitors=[M.mon_c16, M.mon_c16_flush, M.mon_panic],
     title='with a responsive broker every accepted operation completes; the session quiesces',
     claim='Proved in Coq: a weight on the three outbound queues (per entry 2 + unwritten bytes while being written, 1 while awaiting '
           'its flush, 0 once sent) is strictly decreased by every write step and every flush step of the engine in every state '
